@@ -102,7 +102,13 @@ func HarnessC10Tree() {
 		other[1] = '<'
 	}
 	var page, pre, post string
-	switch vChoice("context", 5) {
+	switch vChoice("context", 7) {
+	case 5: // the component prints nothing but its argument: white space at the edges of the literal is part of it
+		vfsWriteFile("templates/components/c.tw", "{{ a }}")
+		page, pre, post = "@component(\"~c\", {a: "+lit+"})", "", ""
+	case 6:
+		vfsWriteFile("templates/components/c.tw", "{{ a }}<hr>")
+		page, pre, post = "x@component(\"~c\", {a: "+lit+"})y", "x", "<hr>y"
 	case 3:
 		vfsWriteFile("templates/components/c.tw", "{{ "+string(other)+" }}")
 		page, pre, post = "{{ "+lit+" }}@component(\"~c\", {a: 1})", "", refEscapeLiteral(string(other[1:len(other)-1]))
